@@ -352,6 +352,16 @@ pub struct FaultFired {
     pub during: (u8, u8),
     /// Was it the acknowledgement point of that command?
     pub at_ack: bool,
+    /// Control field of the frame the terminal was about to emit at that point.
+    pub frame_cf: (u8, u8),
+}
+
+impl FaultFired {
+    /// Was the frame at that point the last one of its exchange (completion, abort, or the status
+    /// information that ends a card reading)?
+    pub fn at_final_frame(&self) -> bool {
+        !self.at_ack && (matches!(self.frame_cf, (0x06, 0x0f) | (0x06, 0x1e)) || (self.frame_cf == (0x04, 0x0f) && self.during == (0x06, 0xc0)))
+    }
 }
 
 #[derive(Default, Clone, Debug)]
@@ -580,6 +590,7 @@ impl PtConn {
             delay += pt.drng.below(max + 1);
         }
         let seq = io.seq();
+        let frame_cf = (e.frame.first().copied().unwrap_or(0), e.frame.get(1).copied().unwrap_or(0));
         let fire = |pt: &mut PtShared, kind: FaultKind| {
             pt.fired.push(FaultFired {
                 conn: self.conn,
@@ -588,6 +599,7 @@ impl PtConn {
                 seq,
                 during,
                 at_ack,
+                frame_cf,
             });
         };
         match fault {
